@@ -13,29 +13,39 @@ import (
 
 // ---- ghost sets of interface values, and the model of github.com/deckarep/golang-set ----
 //
-// A ghost set (family F, owner object o) is a pair
+// A ghost set (family F, owner object o) is a triple
 //
-//	has  : owner -> dynamic-type tag -> 128-bit payload -> Bool
+//	has  : owner -> 128-bit payload -> Bool
+//	etag : owner -> Int      (tag of the dynamic type of the elements; 0 while never filled)
 //	card : owner -> Int
 //
-// An element is an interface value; its key is (tag of the dynamic type, the value's leaves
-// concatenated and zero-extended to 128 bits). Only element types whose flattened representation is
-// a sequence of bit-vectors of at most 128 bits in total are supported (the repository uses uint32,
-// uint64 and two-field structs of those); anything else is refused as unsupported.
+// An element is an interface value; its key is the value's leaves concatenated and zero-extended to
+// 128 bits. Only element types whose flattened representation is a sequence of bit-vectors of at
+// most 128 bits in total are supported (the repository uses uint32, uint64 and two-field structs of
+// those); anything else is refused as unsupported. Sets are homogeneous: adding a value of another
+// dynamic type to a non-empty set is an obligation of the model ("model/..."), so the assumption is
+// checked at every Add/NewSet of the functions under contract and assumed for the sets that exist
+// when a function is entered.
 //
 // golang-set's thread-safe Set (the only implementation NewSet returns) is modelled as the ghost set
 // family "set" owned by the object the interface value points to. Every method is one atomic step
 // (the type's documented guarantee). Pop on a non-empty set removes and returns an arbitrary
 // element; on an empty set it returns nil. The relation between card and has that the model relies
-// on (card >= 0; card == 0 iff no element) is assumed at each Cardinality()/Pop() - it is an
-// invariant of the real data structure (a Go map's len).
+// on (card >= 0; card == 0 iff no element; a non-empty set has an element type) is assumed at each
+// Cardinality()/Pop() - it is an invariant of the real data structure (a Go map's len).
 
 const gsBits = 128
 
-func (x *Exec) gsKeys(fam string) (string, string) {
-	hk, ck := "G|gs:"+fam+".has", "G|gs:"+fam+".card"
-	x.keyInfo[hk] = compInfo{sort: "(Array Int (Array Int (Array " + bvSort(gsBits) + " Bool)))"}
+func (x *Exec) gsKeys3(fam string) (string, string, string) {
+	hk, ck, tk := "G|gs:"+fam+".has", "G|gs:"+fam+".card", "G|gs:"+fam+".etag"
+	x.keyInfo[hk] = compInfo{sort: "(Array Int (Array " + bvSort(gsBits) + " Bool))"}
 	x.keyInfo[ck] = compInfo{sort: "(Array Int Int)"}
+	x.keyInfo[tk] = compInfo{sort: "(Array Int Int)"}
+	return hk, ck, tk
+}
+
+func (x *Exec) gsKeys(fam string) (string, string) {
+	hk, ck, _ := x.gsKeys3(fam)
 	return hk, ck
 }
 
@@ -149,26 +159,6 @@ func (x *Exec) gsKey(st *State, v *Val) (string, string) {
 	return tag, x.sc.defineB(x, "gskey", bvSort(gsBits), pay)
 }
 
-// gsBoxAt writes, for every candidate type, the payload's bits into the object ref (a fresh object),
-// so that a later type assertion on (tag, ref) reads the element's value back.
-func (x *Exec) gsBoxAt(st *State, ref string, pay string) {
-	for _, t := range x.gsCandidates() {
-		w, _ := x.gsEncodable(t)
-		ls := x.leaves(t)
-		hi := w
-		for _, l := range ls {
-			var n int
-			fmt.Sscanf(l.Sort, "(_ BitVec %d)", &n)
-			bits := fmt.Sprintf("((_ extract %d %d) %s)", hi-1, hi-n, pay)
-			hi -= n
-			key := "H|" + typeKey(t) + "|" + l.Path
-			ci := x.hInfo(l)
-			h := x.heapSym(st, key, ci)
-			x.setHeap(st, key, ci, sto(x.use(h), ref, bits))
-		}
-	}
-}
-
 func (x *Exec) gsCandidateKeys() []string {
 	var out []string
 	for _, t := range x.gsCandidates() {
@@ -178,42 +168,64 @@ func (x *Exec) gsCandidateKeys() []string {
 }
 
 type gsState struct {
-	hk, ck   string
-	hci, cci compInfo
-	has, card string
+	hk, ck, tk       string
+	hci, cci, tci    compInfo
+	has, card, etag  string
+	decl             bool // all three components are declared constants (usable in patterns)
 }
 
 func (x *Exec) gsGet(st *State, fam string) *gsState {
 	g := &gsState{}
-	g.hk, g.ck = x.gsKeys(fam)
-	g.hci, g.cci = x.keyInfo[g.hk], x.keyInfo[g.ck]
-	g.has = x.use(x.heapSym(st, g.hk, g.hci))
-	g.card = x.use(x.heapSym(st, g.ck, g.cci))
+	g.hk, g.ck, g.tk = x.gsKeys3(fam)
+	g.hci, g.cci, g.tci = x.keyInfo[g.hk], x.keyInfo[g.ck], x.keyInfo[g.tk]
+	hs, cs, ts := x.heapSym(st, g.hk, g.hci), x.heapSym(st, g.ck, g.cci), x.heapSym(st, g.tk, g.tci)
+	g.has, g.card, g.etag = x.use(hs), x.use(cs), x.use(ts)
+	// Representation invariant of real sets, stated once for every triple of unconstrained
+	// (declared) component versions - the entry state and the state after a call that may have
+	// changed sets: card >= 0; card == 0 exactly when there is no element; a non-empty set has an
+	// element type.
+	g.decl = hs.top != "" && cs.top != "" && ts.top != ""
+	if g.decl {
+		k := "gswf:" + g.has + "|" + g.card + "|" + g.etag
+		if !x.sc.decl[k] {
+			x.sc.decl[k] = true
+			x.sc.emit("(assert (forall ((o Int)) (! (and (>= (select %s o) 0) (=> (= (select %s o) 0) (= (select %s o) %s)) (=> (> (select %s o) 0) (> (select %s o) 0))) :pattern ((select %s o)) :pattern ((select %s o)) :pattern ((select %s o)))))",
+				g.card, g.card, g.has, gsEmpty(), g.card, g.etag, g.card, g.has, g.etag)
+		}
+	}
 	return g
 }
 
-func (x *Exec) gsSetHas(st *State, g *gsState, obj, tag, pay, val string) {
-	inner := sel(g.has, obj)
-	x.setHeap(st, g.hk, g.hci, sto(g.has, obj, sto(inner, tag, sto(sel(inner, tag), pay, val))))
-	g.has = x.use(x.heapSym(st, g.hk, g.hci))
+func (x *Exec) gsSet(st *State, g *gsState, obj, has, card, etag string) {
+	if has != "" {
+		x.setHeap(st, g.hk, g.hci, sto(g.has, obj, has))
+		g.has = x.use(x.heapSym(st, g.hk, g.hci))
+	}
+	if card != "" {
+		x.setHeap(st, g.ck, g.cci, sto(g.card, obj, card))
+		g.card = x.use(x.heapSym(st, g.ck, g.cci))
+	}
+	if etag != "" {
+		x.setHeap(st, g.tk, g.tci, sto(g.etag, obj, etag))
+		g.etag = x.use(x.heapSym(st, g.tk, g.tci))
+	}
 }
 
-func (x *Exec) gsSetCard(st *State, g *gsState, obj, val string) {
-	x.setHeap(st, g.ck, g.cci, sto(g.card, obj, val))
-	g.card = x.use(x.heapSym(st, g.ck, g.cci))
+func gsEmpty() string { return "((as const (Array " + bvSort(gsBits) + " Bool)) false)" }
+
+// gsMember: v (with key tag, pay) is an element of obj's set.
+func gsMember(g *gsState, obj, tag, pay string) string {
+	return and(eq(sel(g.etag, obj), tag), sel(sel(g.has, obj), pay))
 }
 
 // gsWF: facts every real set satisfies, stated for owner obj under the current path condition.
 func (x *Exec) gsWF(st *State, g *gsState, obj string) {
 	c := sel(g.card, obj)
-	wt := x.sc.declare("gswt", "Int")
 	wp := x.sc.declare("gswp", bvSort(gsBits))
 	gd := x.guard(st)
 	x.sc.assume(implies(gd, "(>= "+c+" 0)"))
-	x.sc.assume(implies(gd, implies("(> "+c+" 0)", sel(sel(sel(g.has, obj), wt), wp))))
-	if x.sc.binder == 0 {
-		x.sc.emit("(assert (=> %s (=> (= %s 0) (forall ((t Int) (p %s)) (not (select (select (select %s %s) t) p))))))", gd, c, bvSort(gsBits), g.has, obj)
-	}
+	x.sc.assume(implies(gd, implies("(> "+c+" 0)", and(sel(sel(g.has, obj), wp), "(> "+sel(g.etag, obj)+" 0)"))))
+	x.sc.assume(implies(gd, implies("(= "+c+" 0)", eq(sel(g.has, obj), gsEmpty()))))
 }
 
 func gsRecv(x *Exec, st *State, v *Val) string {
@@ -224,14 +236,27 @@ func gsRecv(x *Exec, st *State, v *Val) string {
 	return v.E[1].S
 }
 
+// gsAddTo: the components of obj's set after adding (tag, pay); the homogeneity obligation is the
+// caller's business.
+func gsAddTo(g *gsState, obj, tag, pay string) (has, card, etag, was string) {
+	was = gsMember(g, obj, tag, pay)
+	c := sel(g.card, obj)
+	return sto(sel(g.has, obj), pay, "true"), ite(was, c, "(+ "+c+" 1)"), tag, was
+}
+
+func (x *Exec) gsHomogeneous(st *State, g *gsState, obj, tag string, p token.Pos) {
+	x.gsWF(st, g, obj)
+	x.oblige(st, "model", "", "golang-set model: sets are homogeneous (element type differs from the set's)", or(eq(sel(g.card, obj), "0"), eq(sel(g.etag, obj), tag)), p)
+}
+
 func mSetAdd(x *Exec, st *State, a []*Val, s *types.Signature, p token.Pos) *Val {
 	obj := gsRecv(x, st, a[0])
 	g := x.gsGet(st, "set")
 	tag, pay := x.gsKey(st, a[1])
-	was := x.sc.defineB(x, "gswas", "Bool", sel(sel(sel(g.has, obj), tag), pay))
-	c := sel(g.card, obj)
-	x.gsSetHas(st, g, obj, tag, pay, "true")
-	x.gsSetCard(st, g, obj, ite(was, c, "(+ "+c+" 1)"))
+	x.gsHomogeneous(st, g, obj, tag, p)
+	has, card, etag, was := gsAddTo(g, obj, tag, pay)
+	was = x.sc.defineB(x, "gswas", "Bool", was)
+	x.gsSet(st, g, obj, has, card, etag)
 	return scalar(types.Typ[types.Bool], not(was), "Bool")
 }
 
@@ -239,10 +264,9 @@ func mSetRemove(x *Exec, st *State, a []*Val, s *types.Signature, p token.Pos) *
 	obj := gsRecv(x, st, a[0])
 	g := x.gsGet(st, "set")
 	tag, pay := x.gsKey(st, a[1])
-	was := x.sc.defineB(x, "gswas", "Bool", sel(sel(sel(g.has, obj), tag), pay))
+	was := x.sc.defineB(x, "gswas", "Bool", gsMember(g, obj, tag, pay))
 	c := sel(g.card, obj)
-	x.gsSetHas(st, g, obj, tag, pay, "false")
-	x.gsSetCard(st, g, obj, ite(was, "(- "+c+" 1)", c))
+	x.gsSet(st, g, obj, ite(was, sto(sel(g.has, obj), pay, "false"), sel(g.has, obj)), ite(was, "(- "+c+" 1)", c), "")
 	return nil
 }
 
@@ -258,7 +282,7 @@ func mSetPop(x *Exec, st *State, a []*Val, s *types.Signature, p token.Pos) *Val
 	g := x.gsGet(st, "set")
 	x.gsWF(st, g, obj)
 	c := sel(g.card, obj)
-	tag := x.sc.declare("gspt", "Int")
+	tag := sel(g.etag, obj)
 	// the popped element: for each candidate element type a fresh value of that type (so that the
 	// key is syntactically the key of a value of that type); an arbitrary key otherwise
 	pay := x.sc.declare("gspp", bvSort(gsBits))
@@ -279,23 +303,19 @@ func mSetPop(x *Exec, st *State, a []*Val, s *types.Signature, p token.Pos) *Val
 	pay = x.sc.defineB(x, "gspk", bvSort(gsBits), pay)
 	ne := x.sc.defineB(x, "gsne", "Bool", "(> "+c+" 0)")
 	gd := x.guard(st)
-	x.sc.assume(implies(gd, implies(ne, and(sel(sel(sel(g.has, obj), tag), pay), "(> "+tag+" 0)"))))
-	inner := sel(g.has, obj)
-	x.setHeap(st, g.hk, g.hci, sto(g.has, obj, sto(inner, tag, sto(sel(inner, tag), pay, and(not(ne), sel(sel(inner, tag), pay))))))
-	x.setHeap(st, g.ck, g.cci, sto(g.card, obj, ite(ne, "(- "+c+" 1)", c)))
+	x.sc.assume(implies(gd, implies(ne, sel(sel(g.has, obj), pay))))
+	x.gsSet(st, g, obj, ite(ne, sto(sel(g.has, obj), pay, "false"), sel(g.has, obj)), ite(ne, "(- "+c+" 1)", c), "")
 	return &Val{K: KIface, T: s.Results().At(0).Type(), E: []*Val{scalar(nil, ite(ne, tag, "0"), "Int"), scalar(nil, ite(ne, ref, "0"), "Int")}}
 }
 
 const gsNewMax = 2
 
-// NewSet(items...): a fresh, otherwise empty set holding the items (at most gsNewMax of them, an
-// obligation at the call site).
+// NewSet(items...): a fresh set holding the items (at most gsNewMax of them, an obligation at the
+// call site).
 func mSetNew(x *Exec, st *State, a []*Val, s *types.Signature, p token.Pos) *Val {
 	ref := x.alloc(st)
 	g := x.gsGet(st, "set")
-	x.setHeap(st, g.hk, g.hci, sto(g.has, ref, x.constArray("Int", "(Array "+bvSort(gsBits)+" Bool)", x.constArray(bvSort(gsBits), "Bool", "false"))))
-	x.setHeap(st, g.ck, g.cci, sto(g.card, ref, "0"))
-	g = x.gsGet(st, "set")
+	x.gsSet(st, g, ref, gsEmpty(), "0", "0")
 	sl := a[0]
 	if sl.K == KSlice {
 		n := sl.E[2].S
@@ -309,24 +329,21 @@ func mSetNew(x *Exec, st *State, a []*Val, s *types.Signature, p token.Pos) *Val
 			abs := x.sc.iAdd(sl.E[1].S, x.sc.iConst(int64(i)))
 			ev := x.load(st, &Ptr{Kind: PElem, Ref: sl.E[0].S, Idx: abs, Root: et})
 			tag, pay := x.gsKey(st, ev)
-			was := sel(sel(sel(g.has, ref), tag), pay)
-			c := sel(g.card, ref)
-			inner := sel(g.has, ref)
-			x.setHeap(st, g.hk, g.hci, sto(g.has, ref, sto(inner, tag, sto(sel(inner, tag), pay, or(in, was)))))
-			x.setHeap(st, g.ck, g.cci, sto(g.card, ref, ite(and(in, not(was)), "(+ "+c+" 1)", c)))
-			g = x.gsGet(st, "set")
+			x.oblige(st, "model", "", "golang-set model: sets are homogeneous (element type differs from the set's)", implies(in, or(eq(sel(g.card, ref), "0"), eq(sel(g.etag, ref), tag))), p)
+			has, card, etag, _ := gsAddTo(g, ref, tag, pay)
+			x.gsSet(st, g, ref, ite(in, has, sel(g.has, ref)), ite(in, card, sel(g.card, ref)), ite(in, etag, sel(g.etag, ref)))
 		}
 	}
 	return &Val{K: KIface, T: s.Results().At(0).Type(), E: []*Val{scalar(nil, x.tagOf(types.Typ[types.UnsafePointer]), "Int"), scalar(nil, ref, "Int")}}
 }
 
 var gsModelTable = map[string]modelFn{
-		"(github.com/deckarep/golang-set.Set).Add":         mSetAdd,
-		"(github.com/deckarep/golang-set.Set).Remove":      mSetRemove,
-		"(github.com/deckarep/golang-set.Set).Cardinality": mSetCardinality,
-		"(github.com/deckarep/golang-set.Set).Pop":         mSetPop,
-		"(github.com/deckarep/golang-set.Set).String":      mFreshPure,
-		"github.com/deckarep/golang-set.NewSet":            mSetNew,
+	"(github.com/deckarep/golang-set.Set).Add":         mSetAdd,
+	"(github.com/deckarep/golang-set.Set).Remove":      mSetRemove,
+	"(github.com/deckarep/golang-set.Set).Cardinality": mSetCardinality,
+	"(github.com/deckarep/golang-set.Set).Pop":         mSetPop,
+	"(github.com/deckarep/golang-set.Set).String":      mFreshPure,
+	"github.com/deckarep/golang-set.NewSet":            mSetNew,
 }
 
 // gsModelWrites: static write set of the golang-set model functions.
@@ -337,8 +354,8 @@ func (x *Exec) gsModelWrites(key string, ws *WriteSet) bool {
 	name := key[strings.LastIndex(key, ".")+1:]
 	switch name {
 	case "Add", "Remove", "NewSet", "Pop":
-		hk, ck := x.gsKeys("set")
-		ws.keys[hk], ws.keys[ck] = true, true
+		hk, ck, tk := x.gsKeys3("set")
+		ws.keys[hk], ws.keys[ck], ws.keys[tk] = true, true, true
 		if name == "Pop" {
 			for _, k := range x.gsCandidateKeys() {
 				ws.keys[k] = true
@@ -346,4 +363,15 @@ func (x *Exec) gsModelWrites(key string, ws *WriteSet) bool {
 		}
 	}
 	return true
+}
+
+// gsPatterns: triggers for a frame quantifier over set owners, usable only on declared components.
+func gsPatterns(v string, gs ...*gsState) string {
+	var ps []string
+	for _, g := range gs {
+		if g.decl {
+			ps = append(ps, fmt.Sprintf(":pattern ((select %s %s)) :pattern ((select %s %s)) :pattern ((select %s %s))", g.has, v, g.card, v, g.etag, v))
+		}
+	}
+	return strings.Join(ps, " ")
 }
